@@ -26,6 +26,7 @@ import (
 	"pgregory.net/rapid"
 
 	"verif/harness/internal/ev"
+	"verif/harness/internal/refwire"
 )
 
 // ---- the owning runtime called directly (the differential oracle of C11) ----
@@ -361,6 +362,35 @@ func oracleC11(c *SCase) *ev.Failure {
 		}
 		return nil
 	})
+	// MarshalText of a message DECODED from bytes whose (registered, message-typed) extension payload is not a
+	// valid message of the extension's type: gogo / golang keep such bytes undecoded until someone looks
+	if mt := typeByKey[c.Type]; mt != nil {
+		for _, xt := range extensionsOf(mt.Desc) {
+			xd := xt.TypeDescriptor()
+			if xd.Message() == nil || xd.IsList() {
+				continue
+			}
+			raw := refwire.AppendLen(refwire.AppendKey(append([]byte{}, c.Value...), int(xd.Number()), refwire.WTLen), []byte{0x0a, 0x05, 0x61})
+			step("MarshalTextRawExtension", func() *ev.Failure {
+				a, _, _ := c.newOf(nil)
+				b, _, _ := c.newOf(nil)
+				if rt.unmarshal(raw, a) != nil || rt.unmarshal(raw, b) != nil {
+					return nil // the runtime validates eagerly: nothing to compare
+				}
+				want := rt.text(b)
+				got, err := csproto.MarshalText(a)
+				if tm, ok := a.(interface{ MarshalText() ([]byte, error) }); ok {
+					w, _ := tm.MarshalText()
+					want = string(w)
+				}
+				if got != want {
+					return ev.Failf(shimSig("marshaltext-differs", c), "MarshalText of a message with an undecodable raw extension = %q, %v; %s produces %q", got, err, rt.name, want)
+				}
+				return nil
+			})
+			break
+		}
+	}
 	return fail
 }
 
